@@ -878,5 +878,10 @@ class SchedulingSolver(BaseModelWithJson):
         """export the model to a smt file to be processed by another SMT solver"""
         if not self._initialized:
             self.initialize()
+        # z3.Optimize has no to_smt2() method, its SMT-LIB2 text is given by sexpr()
+        if hasattr(self._solver, "to_smt2"):
+            smt2_content = self._solver.to_smt2()
+        else:
+            smt2_content = self._solver.sexpr()
         with open(smt_filename, "w", encoding="utf-8") as outfile:
-            outfile.write(self._solver.to_smt2())
+            outfile.write(smt2_content)
